@@ -393,8 +393,7 @@ def run_shard(ctx):
             ctx.ev()
             try:
                 check_getters(ctx, sp, x, y, dx, dy)
-                if ctx.evaluations % 211 == 0:
-                    ctx.sample({"kind": "getters", "spec": sp, "x": x, "y": y, "dx": dx, "dy": dy})
+                ctx.maybe_sample({"kind": "getters", "spec": sp, "x": x, "y": y, "dx": dx, "dy": dy}, 211)
             except Abandon:
                 pass
         return t
@@ -427,8 +426,7 @@ def run_shard(ctx):
             ctx.ev()
             try:
                 check_named_range(ctx, tn, x, y, dx, dy, form, usage)
-                if ctx.evaluations % 301 == 0:
-                    ctx.sample({"kind": "named-range", "table": tn, "area": [x, y, x + dx, y + dy], "form": form})
+                ctx.maybe_sample({"kind": "named-range", "table": tn, "area": [x, y, x + dx, y + dy], "form": form}, 301)
             except Abandon:
                 pass
         return t
